@@ -83,7 +83,11 @@ func genApis(w io.Writer) {
 		if err != nil {
 			c18die("cannot start a node (clique=%v): %v", clique, err)
 		}
-		defer env.Stop()
+		// The node is deliberately not stopped: stopping right after Start races with goroutines that are
+		// still subscribing (filters.EventSystem.eventLoop dereferences a nil subscription); the process exits soon.
+		if env.TempKeyDir != "" {
+			defer os.RemoveAll(env.TempKeyDir)
+		}
 		var infos []apiInfo
 		for _, a := range env.Stack.VerifRPCAPIs() {
 			ms := rpc.VerifSuitableCallbacks(a.Namespace, a.Service)
